@@ -8,6 +8,7 @@ import p_multidim
 import p_search
 import p_own
 import p_guards
+import p_mapped
 
 VERIF = os.path.dirname(os.path.dirname(os.path.abspath(__file__)))
 
@@ -214,4 +215,16 @@ PROPS['C20'] = {
     'explanation': 'Full static claim for C20: each listed rejection is a dominance fact of the CFG plus a comparison of the guard condition with its specification '
                    '(by operand identity, or exhaustively for the finite-domain base check).',
     'assumptions': ['input data is sorted (the reserved value, being the largest, can only be the last element)'],
+}
+
+
+PROPS['C12'] = {
+    'level': 'other', 'rules': p_mapped.rules_c12,
+    'decides': [
+        'CTOR-AGREE: the three MappedPGMIndex constructors (range, raw file, reopen) all establish n, first_key, segments, levels_offsets, data, file_bytes, header_bytes (through member initialisers, the base constructor, assignments, by-reference out-parameters and the member functions they call)',
+        'SER-AGREE: the loader reads exactly the (helper kind, field) list the serialiser wrote, in order; every header write is added to header_bytes; header_bytes is patched at offset 0 after the keys; the keys are written one per element through the iterator; both sides compute file_bytes = header_bytes + n*sizeof(K) and map exactly that; begin() is data + header_bytes',
+        'READONLY-REOPEN: the reopen constructor opens the stream with ios::in only (constant-evaluated openmode), and nothing in its call closure writes a stream or opens/maps the file writable (open flags O_RDONLY, mmap PROT_READ)',
+    ],
+    'not_decided': 'byte identity of the key area and of the segment contents between the two creating constructors (value-level); that answers are identical rests on C01/C02',
+    'explanation': 'Clause-level static claim for C12: constructor, serialiser and loader agree structurally; a constructor that omits a field or a loader that disagrees with the writer breaks reopen equivalence.',
 }
